@@ -102,6 +102,7 @@ class Kernel:
         self.by_ident = {}
         self.installed = False
         self.main_real_timeout = None
+        self.preempt_in_module = False  # only for ops that explore concurrent first imports
 
     # ------------------------------------------------------------------ setup
     def adopt_main(self):
@@ -296,13 +297,15 @@ class Kernel:
 
         def local(frame, event, arg):
             if event == "line":
-                if not task.in_module and frame.f_code.co_filename in kernel.scope:
+                if (not task.in_module or kernel.preempt_in_module) and frame.f_code.co_filename in kernel.scope:
                     kernel.preempt_point(task, frame)
             return local
 
         def local_module(frame, event, arg):
             if event == "return":
                 task.in_module -= 1
+            elif event == "line" and kernel.preempt_in_module and frame.f_code.co_filename in kernel.scope:
+                kernel.preempt_point(task, frame)
             return local_module
 
         def glob(frame, event, arg):
@@ -720,6 +723,20 @@ def install():
     concurrent.futures.ThreadPoolExecutor = SimThreadPoolExecutor
     concurrent.futures.as_completed = as_completed
     concurrent.futures.wait = wait
+
+    # ---- import machinery: per-module locks become cooperative --------------
+    # A task that waits for another task's import to finish must hand the baton on instead of
+    # blocking the process.  (Inert while nobody is pre-empted inside a module body, i.e. always
+    # except in ops that set preempt_in_module.)
+    import importlib._bootstrap as _ib
+
+    class _ThreadShim:
+        allocate_lock = staticmethod(SimLock)
+        RLock = staticmethod(threading._RLock)
+        get_ident = staticmethod(_thread.get_ident)
+
+    _orig["ib_thread"] = _ib._thread
+    _ib._thread = _ThreadShim
 
     # ---- unsimulated concurrency tripwires --------------------------------
     def start_new_thread(*a, **kw):
